@@ -530,10 +530,8 @@ Proof.
   - pose proof (disrupt_sel_inv s m cs ch vok b1 c1 b2 c2 Hi) as H.
     destruct (disrupt_sel s m cs ch vok b1 c1 b2 c2) as [sel sv]. apply inv_start. exact H.
   - destruct ok.
-    + intros x Hx Hq. simpl in *. apply in_map_iff in Hx. destruct Hx as (y & Hy & Hin).
-      unfold in_queue in Hq. simpl in Hq.
-      destruct (existsb (Z.eqb (n_id y)) ids) eqn:E; subst x; simpl in *;
-        apply existsb_filter_out in Hq; destruct Hq as (Hq & _); apply (Hi y Hin Hq).
+    + intros x Hx Hq. simpl in *. unfold in_queue in Hq. simpl in Hq.
+      apply existsb_filter_out in Hq. destruct Hq as (Hq & _). apply (Hi x Hx Hq).
     + intros x Hx Hq. simpl in *. apply in_map_iff in Hx. destruct Hx as (y & Hy & Hin).
       unfold in_queue in Hq. simpl in Hq.
       destruct (existsb (Z.eqb (n_id y)) ids) eqn:E; subst x; simpl in *;
